@@ -15,6 +15,7 @@ pub mod malformed;
 pub mod schemaread;
 pub mod abi;
 pub mod collections;
+pub mod ledger;
 
 #[macro_use]
 mod reg;
